@@ -416,7 +416,7 @@ func TestC02(t *testing.T) {
 		Level: "fault_enumeration",
 		Rule: "layouts: modules of 2-4 packages with previous outputs and a gengo.sum left by a successful run, sources then edited; for each layout EVERY (generator, " +
 			"package, type) position in processing order is enumerated and gets fault kinds round-robin from: plain error, wrapped error, error from a Defer " +
-			"callback (flat, after an earlier callback queued a follow-up, and from a callback that was itself registered by a callback), a real error while the other types of the package get ErrIgnore, error from GenerateAliasType (alias positions), 11 unparseable renderings (behind //line and /*line*/ directives, open brace, stray token, unterminated string/comment, NUL, second " +
+			"callback (flat, after an earlier callback queued a follow-up, and from a callback that was itself registered by a callback), a failing callback of a generator whose whole output comes from callbacks, optionally behind a first generator that renders and registers nothing, a real error while the other types of the package get ErrIgnore, error from GenerateAliasType (alias positions), 11 unparseable renderings (behind //line and /*line*/ directives, open brace, stray token, unterminated string/comment, NUL, second " +
 			"package clause, late import, stray '}', statement at top level), ErrSkip/ErrIgnore plain and wrapped (must not fail), and process death by os.Exit(3) / " +
 			"SIGKILL / an unrecovered panic inside GenerateType in a child process; evaluations = layouts + fault points; a fault point is non-trivial when it lands after a successful " +
 			"GenerateType, or in a package that is not the first, or there is a previous output file to protect; distinct by (layout-independent) JSON of the point",
